@@ -74,10 +74,16 @@ def gen_echo_program(rng):
 def cases(ctx):
     rng = ctx.rng("cases")
     for i in range(ctx.n(1500, 120000)):
-        yield {"kind": "echo", "commands": gen_echo_program(rng), "builder": rng.choice(["source", "api", "api-objects"]), "rseed": rng.randrange(10 ** 9)}
+        cmds = gen_echo_program(rng)
+        builder = rng.choice(["source", "api", "api-objects"])
+        if builder != "api-objects" and rng.random() < 0.5:
+            rng.shuffle(cmds)      # forward references: names are resolved lazily, so any order is a valid program
+        yield {"kind": "echo", "commands": cmds, "builder": builder, "rseed": rng.randrange(10 ** 9)}
     for i in range(ctx.n(300, 20000)):
-        yield {"kind": "eems", "model": models.gen_model(rng, n_ops=rng.randint(1, 8), sinks=True, metadata=rng.random() < 0.5), "builder": rng.choice(["source", "api"]),
-               "rseed": rng.randrange(10 ** 9)}
+        m = models.gen_model(rng, n_ops=rng.randint(1, 8), sinks=True, metadata=rng.random() < 0.5)
+        if rng.random() < 0.6:
+            m = models.permuted(m, rng)
+        yield {"kind": "eems", "model": m, "builder": rng.choice(["source", "api"]), "rseed": rng.randrange(10 ** 9)}
 
 
 # ---------------------------------------------------------------- building P
